@@ -415,7 +415,7 @@ pub fn gen_field(rng: &mut Rng, ty: &Value, o: &GenOpts, count: usize, out: &mut
             "ConInfo" => { for i in 0..16 { out.push(if i == 2 { 0 } else { rng.byte() }); } },
             "SmallType" => { out.push(if wild { rng.byte() } else { rng.below(11) as u8 }); let v = match rng.below(4) { 0 => 0u32, 1 => u32::MAX, 2 => rng.below(4) as u32, _ => rng.next() as u32 }; out.extend_from_slice(&v.to_le_bytes()); },
             "CimMode" => { out.push(if wild { rng.byte() } else { rng.below(7) as u8 }); out.push(if wild { rng.byte() } else { rng.below(5) as u8 }); out.push(rng.byte()); },
-            "GameVersion" => { let mut v = if wild { vec![rng.byte(), b'.', b'7'] } else { rng.pick(&["0.7E", "0.6V3", "0.7D64", "0.70A", "1", "0.04k", "0.000001", "12345678", "0.7D1234", "1234567", "0.00001", "9999.999"]).as_bytes().to_vec() }; v.resize(8, 0); out.extend_from_slice(&v); },
+            "GameVersion" => { let mut v = if wild { vec![rng.byte(), b'.', b'7'] } else { rng.pick(&["0.7E", "0.6V3", "0.7D64", "0.7D0", "0.6A0", "0.70A", "1", "0.04k", "0.000001", "12345678", "0.7D1234", "1234567", "0.00001", "9999.999"]).as_bytes().to_vec() }; v.resize(8, 0); out.extend_from_slice(&v); },
             _ => {},
         },
         _ => {},
@@ -487,6 +487,14 @@ pub fn resolve(outdir: &std::path::Path) {
             let s = if tok.starts_with('S') { to_lossy_string(&b).to_string() } else { String::from_utf8_lossy(&b).to_string() };
             return str_tok(&s);
         }
+        // the model keeps a version's number as its text; the crate holds it as an f32, which cannot tell "52345678" from
+        // "52345680". Both sides are compared as the f32 the standard library parses from the text (C16's recorded assumption)
+        if let Some(rest) = tok.strip_prefix("gv:") {
+            let parts: Vec<&str> = rest.splitn(3, ':').collect();
+            if parts.len() == 3 {
+                if let Ok(f) = parts[0].parse::<f32>() { return format!("gv:{}:{}:{}", f, parts[1], parts[2]); }
+            }
+        }
         if let Some(bits) = tok.strip_prefix('f').and_then(|b| b.parse::<u32>().ok()) {
             if !f32::from_bits(bits).is_finite() { return "fnull".into(); }
         }
@@ -529,6 +537,14 @@ pub fn resolve(outdir: &std::path::Path) {
                 vals[5] = str_tok(&joined);
             }
             out.push_str(&format!("ok {} {}{}{}", kind, vals.join(","), rem, re));
+        } else if let Some(rest) = line.strip_prefix("msoplan ") {
+            // IS_MSO's typed reader (mso.rd): the model names which codec decodes which bytes of the name part and of the whole
+            // text; encoding_rs does the decoding; textstart = UTF-8 length of the decoded name, as the u8 it is stored in
+            let (pn, pw) = rest.split_once(" # ").unwrap_or((rest, "-"));
+            match (crate::c10::resolve_plan(pn), crate::c10::resolve_plan(pw)) {
+                (Some(n), Some(w)) => out.push_str(&format!("{} {}", n.len() as u8, crate::text::cps(&w))),
+                _ => out.push_str(&format!("unresolved {}", rest)),
+            }
         } else {
             out.push_str(line);
         }
